@@ -240,7 +240,9 @@ class TypeCase(AbsInt):
             for t in s.targets:
                 if isinstance(t, ast.Name):
                     cls = self.classify(s.value, st)
-                    if isinstance(s.value, ast.Constant) and s.value.value is not None:
+                    if t.id in self.msg_names and not (isinstance(s.value, ast.Constant) and s.value.value is None):
+                        st.vals[t.id] = V("msg")       # declared by the client as (an alias of) the message
+                    elif isinstance(s.value, ast.Constant) and s.value.value is not None:
                         st.vals[t.id] = V("other")
                         st.bump(("set", t.id, repr(s.value.value)))
                     else:
